@@ -1,11 +1,12 @@
-// C13 round 2 — boundary coordinate pairs in three dimensions (see C13_pairs.hh).
+// C13 round 2 — boundary coordinate pairs: three dimensions (see C13_pairs.hh).
 #include "C13_pairs.hh"
 using namespace c13;
 VF_SECTION(pairs_3d, 16, 16, 120) {
   bool th = r.thorough();
+  (void)th;
   std::string b;
   std::vector<int> k3 = th ? std::vector<int>{} : std::vector<int>{0, 1, 7, 8, 15, 16, 31, 32, 33, 52, 53, 62, 63};
-  run_pairs<Vector3<int64_t>>(r, boundary_alphabet<int64_t>(k3), th ? 4 : 2, b);
+  run_pairs<Vector3<int64_t>>(r, boundary_alphabet<int64_t>(k3), 2, b);
   run_pairs<Vector3<double>>(r, boundary_alphabet<double>(), th ? 4 : 2, b);
   r.bound = "every ordered pair (a,b) of a boundary alphabet (quick: k in {0,1,7,8,15,16,31,32,33,52,53,62,63}; thorough: every k) as the two coordinate values of a tree holding (a,a,a), the 3 points with one b, (b,b,b); all 8 probe points, all 64 boxes: " + b;
 }
